@@ -194,8 +194,12 @@ func normSyms(s string) string {
 			switch strings.ToLower(body) {
 			case "sizeofsize", "lengthsize":
 				body = "LengthSize"
-			case "sizeofaddr", "offsetsize":
+			case "sizeofaddr", "offsetsize", "fileoffsetsize":
 				body = "OffsetSize"
+			case "heapoffsetsize":
+				body = "HeapOffsetSize"
+			case "heaplengthsize":
+				body = "HeapLengthSize"
 			}
 		}
 		terms[i] = sign + coef + body
@@ -613,5 +617,34 @@ func init() {
 	registry["C15"].Meta.Rules["C15.16"] = "the data of a block ends before its checksum: where a block is serialized into a buffer whose tail takes the checksum of what precedes it, every copy of variable-length content into the open-ended rest of the buffer is proven, from a dominating test, to end at or before the checksum's offset (a direct block filled to the last byte of its nominal size was serialized with its last 19 bytes dropped or overwritten, and read back with a valid checksum)"
 	registry["C15"].Rules = append(registry["C15"].Rules, func(c *Ctx, r *Result) {
 		checksumAfterDataRule(c, r, "C15.16", func(n string) bool { return strings.HasPrefix(n, "structures.") }, 1)
+	})
+}
+
+// further writer/parser pairs (C11.15): the same comparison for the structures whose serializer and parser both name their fields
+var layoutPairs = [][3]string{
+	{"attribute info message", "core.EncodeAttributeInfoMessage", "core.ParseAttributeInfoMessage"},
+	{"link info message", "core.EncodeLinkInfoMessage", "core.ParseLinkInfoMessage"},
+	{"link message", "core.EncodeLinkMessage", "core.ParseLinkMessage"},
+	{"local heap header", "structures.LocalHeap.WriteTo", "structures.LoadLocalHeap"},
+	{"fractal heap direct block", "structures.WritableFractalHeap.writeDirectBlockAt", "structures.WritableFractalHeap.readDirectBlockFromFile"},
+	{"fractal heap indirect block", "structures.WritableIndirectBlock.writeAt", "structures.ParseIndirectBlock"},
+	{"superblock v2/v3", "core.Superblock.writeV2", "core.ReadSuperblock"},
+	{"superblock v0", "core.Superblock.writeV0", "core.ReadSuperblock"},
+}
+
+func init() {
+	registry["C11"].Meta.Rules["C11.15"] = "named fields keep their place and width between serializer and parser: for the attribute info, link info and link messages, the local heap header, the fractal heap's direct and indirect blocks and the superblocks, every field name that the serializer puts into the buffer and the parser stores from it has the same offset (a linear form over constants and the superblock's sizes) and the same width on both sides (C14.14 on further pairs; pairs or fields that are not written in the recognised forms are not compared)"
+	registry["C11"].Rules = append(registry["C11"].Rules, func(c *Ctx, r *Result) {
+		total := 0
+		for _, p := range layoutPairs {
+			if c.FnOpt(p[1]) == nil || c.FnOpt(p[2]) == nil {
+				r.Notef("C11.15: pair %s ~ %s not present", p[1], p[2])
+				continue
+			}
+			total += layoutAgreementRule(c, r, "C11.15", p[0], p[1], p[2])
+		}
+		if total < 6 {
+			r.Shortfall(c, "C11.15", fmt.Sprintf("C11.15: only %d fields compared over all pairs", total))
+		}
 	})
 }
